@@ -173,11 +173,15 @@ def rule_phase(ctx) -> None:
         chk.decide(bool(ok), "C10.phase-agreement", fn.qual + " length", f"announces len({src}) and sends the chunks split from the same `{src}`", f"announced {lens}, chunks from `{src}` via {chunks}", "", A.loc(MB, fn.node))
 
 
-def _usb_read_model(ctx, fn, P: int, length: int):
-    """Evaluate read_memory's chunked USB branch on a model interface; returns (returned bytes length, [(address, len)] commands)."""
+def _usb_read_model(ctx, fn, P: int, length: int, fail_at: Optional[int] = None, state: Optional[Dict[str, Any]] = None):
+    """Evaluate read_memory's chunked USB branch on a model interface; returns (returned bytes length, [(address, len)] commands).
+    The model command layer mirrors McuBoot: _process_cmd sets the status of its response, _read_data the final status of the data phase
+    (FAIL, with no data, for the chunk `fail_at`)."""
     cmds: List[Tuple[int, int]] = []
     holder: Dict[str, Any] = {}
     SUCCESS = "SUCCESS"
+    state = state if state is not None else {}
+    state["status"] = SUCCESS
 
     def sym(x: ast.expr):
         t = norm(x)
@@ -196,15 +200,21 @@ def _usb_read_model(ctx, fn, P: int, length: int):
             if f == "self._process_cmd":
                 pk = ev.ev(x.args[0])
                 cmds.append((pk.address, pk.length))
+                state["status"] = SUCCESS
                 return Obj(status=SUCCESS, length=pk.length)
             if f == "self._read_data":
+                if fail_at is not None and len(cmds) - 1 == fail_at:
+                    state["status"] = "FAIL"
+                    return b""
                 return bytes(ev.ev(x.args[1]))
         if t == "StatusCode.SUCCESS":
             return SUCCESS
         if t == "StatusCode.NO_RESPONSE":
             return "NO_RESPONSE"
         if t == "self._status_code":
-            return SUCCESS
+            return state["status"]
+        if t == "StatusCode.FAIL":
+            return "FAIL"
         if isinstance(x, ast.JoinedStr):
             return ""
         return None
@@ -258,6 +268,22 @@ def rule_partition(ctx) -> None:
                 cex = (P, L, len(out.value) if isinstance(out.value, bytes) else out.value, cmds)
     chk.decide(cex is None, "C10.partition", rm.qual + " (USB chunked)", f"ReadMemory commands tile [address, address+length) with non-empty chunks of at most the packet size and all bytes are returned ({n} cases incl. exact multiples)",
                f"packet size {cex[0]}, length {cex[1]}: returned {cex[2]} bytes via commands {cex[3]}" if cex else "", "one command per chunk, no zero-length command", A.loc(MB, rm.node))
+    # a chunk whose data phase fails (exceptions off) ends the operation: no further command is sent, whose response would reset the
+    # status to SUCCESS in front of wrong / partial data
+    cex = None
+    n = 0
+    for P in (4, 7):
+        for k in (0, 1, 2):
+            st: Dict[str, Any] = {}
+            try:
+                out, cmds = _usb_read_model(ctx, rm, P, 3 * P + 1, fail_at=k, state=st)
+            except ordereval.Unsupported as ex:
+                raise AnalysisError(f"C10.faults-surface: read_memory left the fragment: {ex}")
+            n += 1
+            if not (out.kind == "return" and len(cmds) == k + 1 and st["status"] == "FAIL") and cex is None:
+                cex = (P, k, len(cmds), st["status"], len(out.value) if isinstance(out.value, bytes) else out.value)
+    chk.decide(cex is None, "C10.faults-surface", rm.qual + " (USB chunked, failing data phase)", f"the operation stops at the chunk whose data phase failed and the failure status stays visible ({n} cases)",
+               f"packet size {cex[0]}, data phase of chunk {cex[1]} fails: {cex[2]} commands sent, final status {cex[3]}, {cex[4]} bytes returned" if cex else "", "return at the failing chunk", A.loc(MB, rm.node))
     # SDP._read_data: loops until `length` bytes have arrived whatever the burst size
     rd = ctx.own(SDP, "SDP", "_read_data")
     cex = None
